@@ -682,7 +682,7 @@ func (r *reporter) convertTags(tags map[string]string) []m3thrift.MetricTag {
 	key := cache.TagMapKey(tags)
 
 	mtags, ok := r.tagCache.Get(key)
-	if !ok {
+	if !ok || !sameTags(mtags, tags) {
 		mtags = r.resourcePool.getMetricTagSlice()
 		for k, v := range tags {
 			mtags = append(mtags, m3thrift.MetricTag{
@@ -690,10 +690,27 @@ func (r *reporter) convertTags(tags map[string]string) []m3thrift.MetricTag {
 				Value: r.stringInterner.Intern(v),
 			})
 		}
-		mtags = r.tagCache.Set(key, mtags)
+		// n.b. The key is only a hash of the tag map, so an entry may belong
+		//      to a different map: such a map's tags are left uncached.
+		if cached := r.tagCache.Set(key, mtags); sameTags(cached, tags) {
+			mtags = cached
+		}
 	}
 
 	return mtags
+}
+
+// sameTags reports whether mtags holds exactly the pairs of tags.
+func sameTags(mtags []m3thrift.MetricTag, tags map[string]string) bool {
+	if len(mtags) != len(tags) {
+		return false
+	}
+	for _, t := range mtags {
+		if v, ok := tags[t.Name]; !ok || v != t.Value {
+			return false
+		}
+	}
+	return true
 }
 
 func (r *reporter) reportInternalMetrics() {
